@@ -58,6 +58,8 @@ def roots(tier):
     for name in catalog.monolayers():
         for rep in (3, 5) if tier == "quick" else (3, 4, 5, 6):
             out.append(("mono", name, rep))
+            if rep == 3 or tier != "quick":
+                out.append(("mono", name, rep, 10.0))  # small cell height: less vacuum than max_cell_size
     return out
 
 
@@ -117,7 +119,7 @@ def build(root, tier):
     if root[0] == "mono":
         u = catalog.monolayers()[root[1]].copy()
         c = np.array(u.get_cell())
-        c[2] = [0, 0, 16.0]
+        c[2] = [0, 0, root[3] if len(root) > 3 else 16.0]
         u.set_cell(c)
         u.center(axis=2)
         at = u.repeat((root[2], root[2], 1))
